@@ -219,7 +219,7 @@ write_header(struct archive_write *a, struct archive_entry *entry)
 	int64_t ino;
 	struct cpio *cpio;
 	const char *p, *path;
-	int pathlength, ret, ret_final;
+	int pathlength, ret, ret_final, overflow;
 	char h[c_header_size];
 	struct archive_string_conv *sconv;
 	struct archive_entry *entry_main;
@@ -265,10 +265,10 @@ write_header(struct archive_write *a, struct archive_entry *entry)
 
 	memset(h, 0, c_header_size);
 	format_hex(0x070701, h + c_magic_offset, c_magic_size);
-	format_hex(archive_entry_devmajor(entry), h + c_devmajor_offset,
-	    c_devmajor_size);
-	format_hex(archive_entry_devminor(entry), h + c_devminor_offset,
-	    c_devminor_size);
+	overflow = format_hex(archive_entry_devmajor(entry),
+	    h + c_devmajor_offset, c_devmajor_size);
+	overflow |= format_hex(archive_entry_devminor(entry),
+	    h + c_devminor_offset, c_devminor_size);
 
 	ino = archive_entry_ino64(entry);
 	if (ino > 0xffffffff) {
@@ -277,23 +277,35 @@ write_header(struct archive_write *a, struct archive_entry *entry)
 		ret_final = ARCHIVE_WARN;
 	}
 
-	/* TODO: Set ret_final to ARCHIVE_WARN if any of these overflow. */
 	format_hex(ino & 0xffffffff, h + c_ino_offset, c_ino_size);
-	format_hex(archive_entry_mode(entry), h + c_mode_offset, c_mode_size);
-	format_hex(archive_entry_uid(entry), h + c_uid_offset, c_uid_size);
-	format_hex(archive_entry_gid(entry), h + c_gid_offset, c_gid_size);
-	format_hex(archive_entry_nlink(entry), h + c_nlink_offset, c_nlink_size);
+	overflow |= format_hex(archive_entry_mode(entry),
+	    h + c_mode_offset, c_mode_size);
+	overflow |= format_hex(archive_entry_uid(entry),
+	    h + c_uid_offset, c_uid_size);
+	overflow |= format_hex(archive_entry_gid(entry),
+	    h + c_gid_offset, c_gid_size);
+	overflow |= format_hex(archive_entry_nlink(entry),
+	    h + c_nlink_offset, c_nlink_size);
 	if (archive_entry_filetype(entry) == AE_IFBLK
 	    || archive_entry_filetype(entry) == AE_IFCHR) {
-	    format_hex(archive_entry_rdevmajor(entry), h + c_rdevmajor_offset, c_rdevmajor_size);
-	    format_hex(archive_entry_rdevminor(entry), h + c_rdevminor_offset, c_rdevminor_size);
+	    overflow |= format_hex(archive_entry_rdevmajor(entry),
+		h + c_rdevmajor_offset, c_rdevmajor_size);
+	    overflow |= format_hex(archive_entry_rdevminor(entry),
+		h + c_rdevminor_offset, c_rdevminor_size);
 	} else {
 	    format_hex(0, h + c_rdevmajor_offset, c_rdevmajor_size);
 	    format_hex(0, h + c_rdevminor_offset, c_rdevminor_size);
 	}
-	format_hex(archive_entry_mtime(entry), h + c_mtime_offset, c_mtime_size);
+	overflow |= format_hex(archive_entry_mtime(entry),
+	    h + c_mtime_offset, c_mtime_size);
 	format_hex(pathlength, h + c_namesize_offset, c_namesize_size);
 	format_hex(0, h + c_checksum_offset, c_checksum_size);
+	if (overflow) {
+		/* The field holds the largest value the format allows. */
+		archive_set_error(&a->archive, ERANGE,
+		    "Numeric value out of range for cpio format");
+		ret_final = ARCHIVE_WARN;
+	}
 
 	/* Non-regular files don't store bodies. */
 	if (archive_entry_filetype(entry) != AE_IFREG)
